@@ -135,6 +135,9 @@ def as_cmp(term, truth=True):
         truth = not truth
     if t[0] == "bin" and t[1] in FLIP:
         op, a, b = t[1], t[2], t[3]
+        if len(t) == 5 and not truth and op not in ("Eq", "Ne"):
+            # floats: !(a < b) is not (a >= b) when a NaN is involved; keep the negation explicit
+            return ("Not" + op, a, b)
     elif t[0] == "call" and short(t[1]) in CMP_CALLS and len(t[2]) == 2:
         op, a, b = CMP_CALLS[short(t[1])], strip(t[2][0]), strip(t[2][1])
     else:
